@@ -93,6 +93,19 @@ def correspondence(ctx):
                 if rng.rand() < 0.4:
                     dirs = np.eye(dim)[rng.permutation(dim)[:min(D, dim)]] * 3.0
                 kw.update(direction=dirs, angles_tol=float(rng.choice([np.pi / 8, np.pi / 4, 0.2])))
+                if dim in (2, 3) and rng.rand() < 0.4:
+                    # the same directions given as ISO 80000-2 angles (`angles=`): 1..3 rows at once, full azimuth range;
+                    # the model gets the independently computed direction vectors
+                    az = rng.uniform(-2 * np.pi, 2 * np.pi, size=D)
+                    if dim == 2:
+                        dirs = np.stack([np.cos(az), np.sin(az)], axis=1)
+                        ang = az if rng.rand() < 0.5 else az.reshape(-1, 1)
+                    else:
+                        inc = rng.uniform(0.1, np.pi - 0.1, size=D)
+                        dirs = np.stack([np.sin(inc) * np.cos(az), np.sin(inc) * np.sin(az), np.cos(inc)], axis=1)
+                        ang = np.stack([az, inc], axis=1)
+                    del kw["direction"]
+                    kw["angles"] = ang
                 if rng.rand() < 0.5:
                     kw["bandwidth"] = float(rng.choice([0.5, 2.0]))
             fld = np.ma.array(f, mask=fmask) if use_ma else f
@@ -144,7 +157,7 @@ def correspondence(ctx):
             meta.append(("prep", (idx, cf), key))
             if kind == "dir":
                 ops.append(dict(op="vario_dirs", dim=dim, D=int(dirs.shape[0]), dir=fbits(dirs), tol=fbits([ckw["angles_tol"]])[0]))
-                meta.append(("dirs", (ckw["direction"], ckw["separate_dirs"], ckw["bandwidth"], kw.get("bandwidth")), key))
+                meta.append(("dirs", (ckw["direction"], ckw["separate_dirs"], ckw["bandwidth"], kw.get("bandwidth"), "angles" in kw), key))
             if auto is None:
                 ops.append(dict(op="vario_bins", bins=fbits(bins), latlon=latlon, geo_scale=fbits([geo])[0]))
                 meta.append(("bins", cb, key))
@@ -183,9 +196,10 @@ def correspondence(ctx):
                 dis.append({"what": "vario_estimate preprocessing: points/values handed to the kernel differ from the model", "key": key,
                             "real_points": idx.tolist(), "model_points": pts.tolist(), "real_field": cf.tolist(), "model_field": vals.tolist(), "op": o})
         elif kind == "dirs":
-            d, sep, bw, bw_in = real
+            d, sep, bw, bw_in, via_angles = real
             md = np.array([unbits(x) for x in r["dirs"]]).reshape(d.shape)
-            ok = np.allclose(md, d, rtol=1e-15, atol=1e-15) and bool(r["separate"]) == bool(sep) and bw == (-1.0 if bw_in is None else bw_in)
+            tol_d = 1e-12 if via_angles else 1e-15     # angles: sin/cos products in another order than the independent ISO vectors
+            ok = np.allclose(md, d, rtol=tol_d, atol=tol_d) and bool(r["separate"]) == bool(sep) and bw == (-1.0 if bw_in is None else bw_in)
             if not ok:
                 dis.append({"what": "vario_estimate preprocessing: directions / separate_dirs / bandwidth differ from the model", "key": key,
                             "real": [d.tolist(), bool(sep), bw], "model": [md.tolist(), bool(r["separate"])]})
